@@ -451,6 +451,17 @@ TRUSTED_BASE = [
 
 def run_check(mod, prop_id, tier, seed, replay=None):
     t0 = time.time()
+    if replay and not hasattr(mod, "replay"):
+        # modules without a case-level replay re-run the whole (deterministic) check with the seed and tier recorded in the
+        # replay file: on the tree the replay came from this reproduces the recorded violation, on a tree where the
+        # property holds it is silent
+        try:
+            rec = json.load(open(replay))
+            seed = int(rec.get("seed", seed))
+            tier = rec.get("tier", tier) if rec.get("tier") in ("quick", "thorough") else tier
+        except Exception:  # noqa: BLE001
+            pass
+        replay = None
     budget = float(os.environ.get("VERIF_BUDGET_S", "0")) or (240 if tier == "quick" else 1500)
     build = ensure_built()
     needed_sites = getattr(mod, "SITES", [])
